@@ -2,7 +2,7 @@
 """Verify a sub-agent's seeded change in a scratch worktree: the demo passes on the clean tree,
 fails with the change, and the repository's own tests still pass with the change."""
 import subprocess, sys, json, os, shutil
-WT='/tmp/own2'
+WT='/tmp/own3'
 def sh(cmd, cwd=WT, timeout=1800):
     return subprocess.run(cmd, shell=True, cwd=cwd, capture_output=True, text=True, timeout=timeout)
 def results(out):
